@@ -12,9 +12,10 @@ namespace Orb.TileCover
 open Orb Orb.Tile
 
 /-- The float operations over an ordered field with floor: exact `floor`, `abs`, and `uint32(·)` as the
-    natural-number floor (no wrap: the theorems that use it assume non-negative coordinates). -/
+    natural-number floor (no wrap: the theorems that use it assume non-negative coordinates); the west
+    edge of a column is `westEdgeOf` at the cast `ℕ → K`. -/
 def opsK (K : Type) [Field K] [LinearOrder K] [FloorRing K] : Ops K :=
-  ⟨fun x => ((⌊x⌋ : ℤ) : K), fun x => |x|, fun x => ⌊x⌋.toNat⟩
+  ⟨fun x => ((⌊x⌋ : ℤ) : K), fun x => |x|, fun x => ⌊x⌋.toNat, westEdgeOf (fun n => (n : K))⟩
 
 section dda
 set_option linter.unusedSectionVars false
